@@ -2,8 +2,9 @@
 //
 // System: a fresh regnet-style node (pure PoW era, CoinbaseMaturity 1) with a fixed prefix of 4
 // coinbase-only blocks, three harness addresses (A = foundation, M = miner, C = carol) and a menu
-// of 12 signed transfers that pairwise share outpoints of the matured coinbases of blocks 1 and 2
-// (or of each other; 8-11 vary the input Sequence and the input order). Operations (per state, canonical order):
+// of 17 signed transfers that pairwise share outpoints of the matured coinbases of blocks 1 and 2
+// (or of each other; 8-11 vary the input Sequence and the input order, 12 is a 300-output
+// fan-out and 13-16 spend its outputs 7 and 263 twice each). Operations (per state, canonical order):
 //
 //	sub:i          TxPool.AppendToTxPool(menu[i])
 //	mine:S         build the next block on the tip holding exactly S (no miner filtering) and
@@ -73,7 +74,8 @@ type alphabet struct {
 // through hold / child / deliver; "inputs": transfers whose inputs name an outpoint under a
 // different Sequence, twice in one transaction, or after an unspent input of the same
 // transaction, and blocks in which two transfers spend different outputs of one previous
-// transaction (0+7), followed by re-spends).
+// transaction (0+7), followed by re-spends; "fanout": a 300-output transfer and two competing
+// spends each of its outputs 7 and 263).
 func familiesFor(tier string) (fams []alphabet, budgetS int) {
 	if tier == "thorough" {
 		return []alphabet{
@@ -85,7 +87,7 @@ func familiesFor(tier string) (fams []alphabet, budgetS int) {
 				Mine:  []string{"-", "pool", "1", "0+1"},
 				ForkK: []int{1}, Fork: []string{"-", "1"}, Ext: []string{"-", "1"}, Depth: 7},
 			{Name: "inputs", Subs: []int{0, 3, 8, 9, 10, 11},
-				Mine:  []string{"-", "pool", "0", "1", "3", "8", "9", "10", "11", "0+8", "1+8", "1+10", "3+11", "8+10", "0+7", "7+0"},
+				Mine:  []string{"-", "pool", "0", "1", "3", "8", "9", "10", "11", "0+8", "1+8", "1+10", "3+11", "8+10", "0+7", "7+0", "12", "13", "14", "15", "16", "13+14"},
 				ForkK: []int{1}, Fork: []string{"-", "8"}, Ext: []string{"-"}, Depth: 4},
 		}, 1700
 	}
@@ -101,6 +103,7 @@ func familiesFor(tier string) (fams []alphabet, budgetS int) {
 			Hold: []string{"-", "0"}, Child: []string{"-", "5"}, Depth: 4},
 		{Name: "inputs", Subs: []int{8, 10, 11},
 			Mine: []string{"1", "3", "8", "9", "10", "11", "0+8", "1+10", "0+7", "7+0"}, Depth: 3},
+		{Name: "fanout", Mine: []string{"12", "13", "14", "15", "16"}, Depth: 3},
 	}, 85
 }
 
@@ -204,6 +207,21 @@ func newWorld(al *alphabet) *world {
 			// outpoint t3/t4 spend
 			chainkit.SignedTransfer(M, []common2.OutPoint{op(cb1, 1), op(cb2, 1)}, []chainkit.Out{{To: C, Value: v(cb1, 1) + v(cb2, 1) - fee}}, 11),
 		}
+		// 12: a fan-out of coinbase-2 output 0 into 300 outputs (indexes above 255 exercise the
+		// 16-bit encoding of the unspent index); 13/15 both spend its output 7, 14/16 both spend
+		// its output 263 (= 7 modulo 256)
+		each := (v(cb2, 0) - fee) / 300
+		fan := make([]chainkit.Out, 300)
+		for i := range fan {
+			fan[i] = chainkit.Out{To: C, Value: each}
+		}
+		t12 := chainkit.SignedTransfer(A, []common2.OutPoint{op(cb2, 0)}, fan, 12)
+		menuOnce = append(menuOnce, t12,
+			chainkit.SignedTransfer(C, []common2.OutPoint{op(t12, 7)}, []chainkit.Out{{To: A, Value: each - fee}}, 13),
+			chainkit.SignedTransfer(C, []common2.OutPoint{op(t12, 263)}, []chainkit.Out{{To: A, Value: each - fee}}, 14),
+			chainkit.SignedTransfer(C, []common2.OutPoint{op(t12, 7)}, []chainkit.Out{{To: M, Value: each - fee}}, 15),
+			chainkit.SignedTransfer(C, []common2.OutPoint{op(t12, 263)}, []chainkit.Out{{To: M, Value: each - fee}}, 16),
+		)
 	}
 	w.menu = menuOnce
 	return w
@@ -975,6 +993,12 @@ func main() {
 		r.Finish(evid.Coverage{})
 	}
 
+	// miner/validator agreement on the coinbase in the DPoS-v2 + POW-reverted reward regime
+	// (the factory uses the real AssignCoinbaseTxRewards; every other regime is exercised by the
+	// blocks the searches deliver)
+	if regime, err := chainkit.CoinbaseSelfCheck(); err != nil {
+		r.Violate("C06|factory-coinbase-refused|regime="+regime, err.Error(), map[string]interface{}{"history": []string{}, "regime": regime})
+	}
 	pool, err := chainkit.StartPool(par.Workers())
 	if err != nil {
 		evid.Fatalf("C06: pool: %v", err)
@@ -1054,7 +1078,7 @@ func main() {
 			"pool_submissions_accepted":           total.PoolAccepted,
 			"orphans_accepted":                    total.Orphans,
 		},
-		"rule":    "for every family (alphabet + depth, see families): breadth-first search over all operation sequences up to the depth on a fresh chainkit node (pure PoW era, CoinbaseMaturity 1, 4-block prefix, 12-transfer menu sharing outpoints of coinbases 1 and 2 and of each other, some under different input Sequences / input orders); one fresh-node replay per transition in worker processes, global digest memo; state digest = active chain hashes + unspent index of all factory transactions + pool hashes + node-known side/orphan blocks of the path + harness selectors (lastSide, held); oracles after every operation: active-chain replay in maps (no outpoint spent twice, every spend refers to an earlier-created output), GetUnspent == replay for every known transaction, pool conflict-free and disjoint from chain-spent outpoints after the node's event-driven cleanup, tip blocks that double-spend on their own chain rejected; states counted per family (a state reached in two families is counted twice)",
+		"rule":    "for every family (alphabet + depth, see families): breadth-first search over all operation sequences up to the depth on a fresh chainkit node (pure PoW era, CoinbaseMaturity 1, 4-block prefix, 17-transfer menu sharing outpoints of coinbases 1 and 2 and of each other, some under different input Sequences / input orders); one fresh-node replay per transition in worker processes, global digest memo; state digest = active chain hashes + unspent index of all factory transactions + pool hashes + node-known side/orphan blocks of the path + harness selectors (lastSide, held); oracles after every operation: active-chain replay in maps (no outpoint spent twice, every spend refers to an earlier-created output), GetUnspent == replay for every known transaction, pool conflict-free and disjoint from chain-spent outpoints after the node's event-driven cleanup, tip blocks that double-spend on their own chain rejected; states counted per family (a state reached in two families is counted twice)",
 		"samples": samples,
 	}
 	r.Assume = append(r.Assume,
